@@ -736,12 +736,28 @@ def mon_C05(blocks):
 
 def mon_C06(blocks):
     out = []
-    for b in blocks:
+
+    # ghost: the address/user agent of the last accepted request of every session, and the comparison point each
+    # replaced id inherited when it was replaced
+    last_req = {}     # sid -> (ip, ua)
+    repl_point = {}   # replaced id -> (ip, ua)
+
+    def visit(b, g, ctx):
         a = b.ann
-        if b.tok[0] != "req" or b.faulted or b.ret == "panic":
-            continue
+        k = b.tok[0]
+        # comparison points of ids replaced by this call: the session's last accepted request so far (a rotation inside
+        # Start happens before the request's own address is recorded; a handler call happens after)
+        for e in b.evs:
+            if e[0] == "save" and len(e) > 3 and any(t.startswith("rf=") and t != "rf=-" for t in e[2:]):
+                old = _unq(e[1])
+                sid = g.sid_of.get(old)
+                if sid is not None and old not in repl_point and sid in last_req:
+                    repl_point[old] = last_req[sid]
+        if k != "req" or b.faulted or b.ret == "panic":
+            return
         v = b.inp
         d, why = verdict(b)
+        _, _, ip, ua, _ = req_fields(b)
         if d == "refuse" and why in ("ip", "ua"):
             served = b.ret == "sess" and b.ss and (_unq(b.ss["id"]) == v or _unq(b.ss["id"]) in a.pre_store or _unq(b.ss["id"]) in a.pre_cache)
             if served:
@@ -757,9 +773,41 @@ def mon_C06(blocks):
                 out.append(Violation(b.idx, "session record gone after a request without anomaly"))
             else:
                 # the comparison point moves with the accepted request
-                _, _, ip, ua, _ = req_fields(b)
                 if _unq(b.ss["ip"]) != ip or int(b.ss["ua"]) != agent_hash(ua):
                     out.append(Violation(b.idx, "accepted request's address/user agent not recorded"))
+        elif d == "serve-ref" and v in repl_point and a.cfg["maxCache"] not in (0, 1):
+            # through a replaced id the comparison point is the session's last accepted request at the time of replacement
+            pip, pua = repl_point[v]
+            an = ip_anomaly(a.cfg["acceptIP"], pip, ip)
+            ua_bad = (not a.cfg["acceptUA"]) and agent_hash(pua) != 0 and agent_hash(pua) != agent_hash(ua)
+            if (an is True or ua_bad) and b.ret == "sess":
+                out.append(Violation(b.idx, "a request presenting a replaced id from %s (%s) was served although the session's last accepted request "
+                                            "before the replacement came from %s (%s)" % (ip, ua, pip, pua)))
+
+    def visit_after(b, g, ctx):
+        pass
+
+    # fold calls visit BEFORE absorbing; the last accepted request must be recorded AFTER the checks of the same block
+    def visit2(b, g, ctx):
+        visit(b, g, ctx)
+        if b.tok[0] == "req" and b.ret == "sess" and b.ss:
+            rid = _unq(b.ss["id"])
+            sid = g.sid_of.get(rid) or g.sid_of.get(b.inp)
+            _, _, ip, ua, _ = req_fields(b)
+            pending.append((rid, b.inp, (ip, ua)))
+
+    pending = []
+
+    def visit3(b, g, ctx):
+        # settle the previous request's address now that the ghost knows its session id
+        while pending:
+            rid, inp, addr = pending.pop()
+            sid = g.sid_of.get(rid) or g.sid_of.get(inp)
+            if sid is not None:
+                last_req[sid] = addr
+        visit2(b, g, ctx)
+
+    fold(blocks, visit3)
     return out
 
 
